@@ -139,6 +139,45 @@ func init() {
 		}
 	}
 
+	// ---- an established relation: the remote target terminates and the connection is lost at the
+	// same moment => still exactly one notification ---------------------------------------------------
+	for _, rel := range []string{"link", "monitor"} {
+		rel := rel
+		harn.Register(harn.Scenario{Property: "C14", Name: fmt.Sprintf("established-%s-pid-kill-vs-cut", rel), Run: func(c *harn.Ctx) *harn.Result {
+			return harn.Explore(c, harn.Sched{QuickBound: 1, ThoroughBound: 2, Preempt: false, Cache: true, HorizonS: 30, Body: netBody(netOpts{}, func(nw *NetWorld) {
+				nw.b.ex.Data["kind"] = "pid"
+				t := nw.b.spawnTarget("T", "tname", "tev")
+				o := remoteObserver(nw.a, "L")
+				nw.connect()
+				if nw.ex.Failed() {
+					return
+				}
+				var reqErr error
+				nw.a.Do("L", func(p *probe) error { reqErr = request(p, rel, "pid", t); return nil })
+				if reqErr != nil {
+					nw.ex.Fail("harness", "%s on the remote pid failed: %v", rel, reqErr)
+					return
+				}
+				nw.ex.Thread("KILL", func() { nw.b.n.Kill(t.pid) })
+				nw.ex.ThreadLow("CUT", func() { nw.links[0].ca.Close() })
+				nw.Check = func() {
+					n := len(o.notifs)
+					if r := nw.a.recs["L"]; len(r.term) > 0 {
+						n++
+					}
+					if n != 1 {
+						k := "notified-twice"
+						if n == 0 {
+							k = "request-ok-no-notification"
+						}
+						nw.ex.Fail(k, "an established %s on a remote pid; the target was killed and the connection cut concurrently: %d notifications %v", rel, n, o.notifs)
+					}
+					nw.Out("notifs=%v", o.notifs)
+				}
+			})})
+		}})
+	}
+
 	// ---- requests in flight when the connection is lost --------------------------------------------
 	for _, what := range []string{"call-answered", "call-unanswered", "send-important", "send"} {
 		what := what
